@@ -94,11 +94,13 @@ func (e *listEnt) Walk(ctx context.Context, names ...string) ([]p9p.Qid, p9p.Dir
 func (e *listEnt) Create(context.Context, string, uint32, p9p.Flag) (p9p.Dirent, p9p.File, error) {
 	return nil, nil, errors.New("no create")
 }
-func (e *listEnt) Open(context.Context, p9p.Flag) (p9p.File, error) { return nil, errors.New("is a directory") }
-func (e *listEnt) Remove(context.Context) error                     { return nil }
-func (e *listEnt) Clunk(context.Context) error                      { return nil }
-func (e *listEnt) Stat(context.Context) (p9p.Dir, error)            { return p9p.Dir{Name: "/"}, nil }
-func (e *listEnt) WStat(context.Context, p9p.Dir) error             { return nil }
+func (e *listEnt) Open(context.Context, p9p.Flag) (p9p.File, error) {
+	return nil, errors.New("is a directory")
+}
+func (e *listEnt) Remove(context.Context) error          { return nil }
+func (e *listEnt) Clunk(context.Context) error           { return nil }
+func (e *listEnt) Stat(context.Context) (p9p.Dir, error) { return p9p.Dir{Name: "/"}, nil }
+func (e *listEnt) WStat(context.Context, p9p.Dir) error  { return nil }
 
 // ---- workload
 
